@@ -337,14 +337,17 @@ func opC07Pair(raw json.RawMessage, o *Out) {
 			}
 			built := s2.VerifIndexStateOf(s2.VerifLoopIndex(la)).PendingAdditionsPos > 0
 			la.Invert()
+			// compared with the answers of the independently built reversed loop, so that a wrong
+			// relation (reported above) is not reported again as a wrong Invert
 			g := [3]bool{la.Contains(y), y.Contains(la), la.Intersects(y)}
-			w := [3]bool{c.Want.C[1][0], c.Want.D[1][0], c.Want.I[1][0]}
+			w := [3]bool{got.C[1][0], got.D[1][0], got.I[1][0]}
 			if g != w {
 				cls := "index-not-built"
 				if built {
 					cls = "index-built"
 				}
-				o.Fail("c07pair/loop/Invert/"+cls, "after A.Invert(): Contains(B),B.Contains,Intersects = %v, model %v; %s", g, w, desc)
+				o.Fail("c07pair/loop/Invert/"+cls, "after A.Invert(): Contains(B),B.Contains,Intersects = %v, the loop built from the reversed vertices answers %v (model %v); %s",
+					g, w, [3]bool{c.Want.C[1][0], c.Want.D[1][0], c.Want.I[1][0]}, desc)
 			}
 		}
 	}
@@ -397,13 +400,14 @@ func opC07Pair(raw json.RawMessage, o *Out) {
 		pa.Invert()
 		y := py[0]
 		g := [3]bool{pa.Contains(y), y.Contains(pa), pa.Intersects(y)}
-		w := [3]bool{c.Want.C[1][0], c.Want.D[1][0], c.Want.I[1][0]}
+		w := [3]bool{pg.C[1][0], pg.D[1][0], pg.I[1][0]}
 		if g != w {
 			cls := "loop-index-not-built"
 			if built {
 				cls = "loop-index-built"
 			}
-			o.Fail("c07pair/"+kind+"/Invert/"+cls, "after A.Invert(): Contains(B),B.Contains,Intersects = %v, model %v; %s", g, w, desc)
+			o.Fail("c07pair/"+kind+"/Invert/"+cls, "after A.Invert(): Contains(B),B.Contains,Intersects = %v, the polygon built from the complement's loops answers %v (model %v); %s",
+				g, w, [3]bool{c.Want.C[1][0], c.Want.D[1][0], c.Want.I[1][0]}, desc)
 		}
 	}
 	if o.nontrivial || spanAny {
@@ -490,9 +494,9 @@ func opC07Forest(raw json.RawMessage, o *Out) {
 		pk, has := p.Parent(k)
 		switch {
 		case has != (w.Parent >= 0):
-			o.Fail("c07forest/parent/"+cls, "input loop %d: Parent ok=%v, model parent %d; %s", i, has, w.Parent, desc)
+			o.Fail("c07forest/Parent", "input loop %d: Parent ok=%v, model parent %d; %s", i, has, w.Parent, desc)
 		case has && (pk < 0 || pk >= p.NumLoops() || idx[p.Loop(pk)] != w.Parent):
-			o.Fail("c07forest/parent/"+cls, "input loop %d: Parent=%d (not input loop %d); %s", i, pk, w.Parent, desc)
+			o.Fail("c07forest/Parent", "input loop %d (depth %d) at position %d: Parent=%d, model: position of input loop %d; %s", i, w.Depth, k, pk, w.Parent, desc)
 		}
 		if ld := p.LastDescendant(k); ld != k+w.Ndesc {
 			o.Fail("c07forest/lastdescendant/"+cls, "input loop %d at %d: LastDescendant=%d, model %d; %s", i, k, ld, k+w.Ndesc, desc)
